@@ -64,14 +64,14 @@ def main():
         suite_line = lines[-1].strip() if lines else 'no summary'
         fails = sorted(set(l.split('] ')[-1].strip() for l in outs.splitlines() if l.strip().startswith('FAIL')))
         suite_ok = ('564 passed' in suite_line) and all('ssao_bias' in f for f in fails)
-        if not suite_ok and '563 passed' in suite_line and all('ssao_bias' in f or 'tree_import_cache' in f for f in fails):
+        if not suite_ok and ('563 passed' in suite_line or '562 passed' in suite_line) and all('ssao_bias' in f or 'tree_import_cache' in f or 'tree_import_nocache' in f for f in fails):
             # tree_import_cache compares two wall-clock durations and fails
             # now and then on a loaded machine: run it alone, up to 3 times
             for _ in range(3):
-                rct, outt = sh('cargo nextest run -p fidget-core --offline --build-jobs 8 tree_import_cache', cwd=wt)
+                rct, outt = sh('cargo nextest run -p fidget-core --offline --build-jobs 8 tree_import_', cwd=wt)
                 if rct == 0:
                     suite_ok = True
-                    suite_line += ' (tree_import_cache: timing test, passed when re-run alone)'
+                    suite_line += ' (tree_import_*cache: wall-clock tests, passed when re-run alone)'
                     break
         print(f'[changed]   suite: {suite_line} fails={fails}')
     sh('git reset -q --hard && git clean -qfd -e target', cwd=wt)
